@@ -56,30 +56,64 @@ fn to_char_table() {
     } else {
         assert!(c as u32 >= 0xa0);
     }
+    // every entry is in the Basic Multilingual Plane, at most 3 UTF-8 bytes (used below)
+    assert!((c as u32) <= 0x25a0);
     kani::cover!(b == 0xff && c as u32 == 0x00a0, "last entry reachable");
     kani::cover!(b == 0x9e && c as u32 == 0x20a7, "a 3-byte-UTF-8 entry reachable");
 }
 
-// `got` is exactly the chars to_char(b0), to_char(b1), ... (Chars::next is loop-free, so the
-// comparison adds no loops; str::chars().count() is avoided: its word-at-a-time loop is
-// intractable for CBMC).
+// UTF-8 (RFC 3629) of a scalar value below 0x10000, written independently of std: the String
+// a per-byte map of to_char must produce is the concatenation of these encodings. Every CP437
+// code point is <= 0x25a0 (asserted in to_char_table against the table), so three bytes suffice.
+fn utf8_len(cp: u32) -> usize {
+    if cp < 0x80 { 1 } else if cp < 0x800 { 2 } else { 3 }
+}
+fn utf8_byte(cp: u32, k: usize) -> u8 {
+    if cp < 0x80 {
+        cp as u8
+    } else if cp < 0x800 {
+        if k == 0 { 0xC0 | (cp >> 6) as u8 } else { 0x80 | (cp & 0x3f) as u8 }
+    } else if k == 0 {
+        0xE0 | (cp >> 12) as u8
+    } else if k == 1 {
+        0x80 | ((cp >> 6) & 0x3f) as u8
+    } else {
+        0x80 | (cp & 0x3f) as u8
+    }
+}
+
+// `got` is byte for byte utf8(to_char(b0)) ++ utf8(to_char(b1)) ++ ... and nothing more.
+// Straight-line (no loops added). Comparing through str::chars() or against a String built
+// with String::push is equivalent but 2-4x slower to solve; chars().count() is intractable.
 macro_rules! assert_is_map {
     ($got:expr, [$($b:expr),*]) => {{
         let s: &str = &$got;
-        let mut it = s.chars();
-        $( assert!(it.next() == Some(to_char($b))); )*
-        assert!(it.next().is_none());
+        let bs = s.as_bytes();
+        let mut off = 0usize;
+        $( {
+            let cp = to_char($b) as u32;
+            assert!(cp < 0x10000 && !(0xD800 <= cp && cp < 0xE000));
+            let l = utf8_len(cp);
+            assert!(off + l <= bs.len());
+            assert!(bs[off] == utf8_byte(cp, 0));
+            if l > 1 { assert!(bs[off + 1] == utf8_byte(cp, 1)); }
+            if l > 2 { assert!(bs[off + 2] == utf8_byte(cp, 2)); }
+            off += l;
+        } )*
+        assert!(off == bs.len());
     }};
 }
 
 // The bounded harnesses enumerate each length with a concrete-length input and fully
 // symbolic bytes, so that every loop in the real std code (Iterator::all, UTF-8 validation,
 // String::extend/collect) unwinds completely under the given #[kani::unwind] with
-// unwinding assertions on.
+// unwinding assertions on. minisat is selected because it is 2-3x faster than the default
+// solver on these (measured).
 
-// @harness from_cp437_vec_len2 bounded bound="all byte strings of length <= 2" props=C19 doc="Vec<u8>::from_cp437() equals the per-byte map of to_char (compared char by char), ASCII fast path (String::from_utf8) included; real std String/iterator/UTF-8 code executed"
+// @harness from_cp437_vec_len2 bounded bound="all byte strings of length <= 2" props=C19 doc="Vec<u8>::from_cp437() is the concatenated UTF-8 of to_char over the bytes, ASCII fast path (String::from_utf8) included; real std String/iterator/UTF-8 code executed"
 #[kani::proof]
 #[kani::unwind(4)]
+#[kani::solver(minisat)]
 fn from_cp437_vec_len2() {
     let a: u8 = kani::any();
     let b: u8 = kani::any();
@@ -91,9 +125,10 @@ fn from_cp437_vec_len2() {
     kani::cover!(a == 0x9e && b == 0xff, "slow path, 3-byte and 2-byte UTF-8");
 }
 
-// @harness from_cp437_slice_len2 bounded bound="all byte strings of length <= 2" props=C19 doc="<&[u8]>::from_cp437() equals the per-byte map of to_char, ASCII fast path (borrowed str::from_utf8) included"
+// @harness from_cp437_slice_len2 bounded bound="all byte strings of length <= 2" props=C19 doc="<&[u8]>::from_cp437() is the concatenated UTF-8 of to_char over the bytes; borrowed (no allocation) exactly on the all-ASCII path"
 #[kani::proof]
 #[kani::unwind(4)]
+#[kani::solver(minisat)]
 fn from_cp437_slice_len2() {
     let a: u8 = kani::any();
     let b: u8 = kani::any();
@@ -104,7 +139,6 @@ fn from_cp437_slice_len2() {
     assert_is_map!((&a1[..]).from_cp437(), [a]);
     let r = (&a2[..]).from_cp437();
     assert_is_map!(r, [a, b]);
-    // allocation is avoided exactly on the ASCII path
     assert!(matches!(r, ::std::borrow::Cow::Borrowed(_)) == (a < 0x80 && b < 0x80));
     kani::cover!(a < 0x80 && b < 0x80, "ASCII fast path, length 2");
     kani::cover!(a >= 0x80 && b < 0x80, "slow path, mixed");
@@ -113,6 +147,7 @@ fn from_cp437_slice_len2() {
 // @harness from_cp437_vec_len3 bounded tier=thorough bound="all byte strings of length <= 3" props=C19 doc="Vec<u8>::from_cp437() on every byte string of length exactly 3 (lengths 0..=2: from_cp437_vec_len2)"
 #[kani::proof]
 #[kani::unwind(5)]
+#[kani::solver(minisat)]
 fn from_cp437_vec_len3() {
     let a: u8 = kani::any();
     let b: u8 = kani::any();
@@ -125,6 +160,7 @@ fn from_cp437_vec_len3() {
 // @harness from_cp437_slice_len3 bounded tier=thorough bound="all byte strings of length <= 3" props=C19 doc="<&[u8]>::from_cp437() on every byte string of length exactly 3 (lengths 0..=2: from_cp437_slice_len2)"
 #[kani::proof]
 #[kani::unwind(5)]
+#[kani::solver(minisat)]
 fn from_cp437_slice_len3() {
     let a: u8 = kani::any();
     let b: u8 = kani::any();
